@@ -189,6 +189,61 @@ def two_store_differential(ctx, n):
     ctx.extra["two_store_pairs"] = done
 
 
+def access_check_correspondence(ctx):
+    """The real Access.check (app/base.py) vs Model/Access.v on the full product of small permission sets."""
+    from radicale.app.base import Access
+    from radicale import storage
+    from radicale import item as ritem
+
+    class FakeRights:
+        def __init__(self, table):
+            self.table = table
+
+        def authorization(self, user, path):
+            return self.table.get(path, "")
+
+    class FakeColl(storage.BaseCollection):
+        def __init__(self, tag):
+            self._tag = tag
+
+        @property
+        def tag(self):
+            return self._tag
+
+    class FakeItem:            # anything that is not a BaseCollection and truthy
+        pass
+    sets = ["", "r", "w", "R", "W", "rw", "RW", "d", "D", "o", "O", "rD", "Wd", "RrWw", "i"]
+    cases = []
+    for perms in sets:
+        for pperms in sets:
+            for root in (False, True):
+                for permission in "rwdDoO":
+                    for kind, it in (("NoItem", None), ("(IsCollection [86]%N)", FakeColl("VCALENDAR")),
+                                     ("(IsCollection []%N)", FakeColl("")), ("IsItem", FakeItem())):
+                        path = "/" if root else "/a/b/"
+                        parent = "/" if root else "/a/"
+                        acc = Access(FakeRights({path: perms, parent: pperms} if not root else {path: perms}), "u", path)
+                        got = acc.check(permission, it)
+                        pp = perms if root else pperms
+                        cases.append(((perms, pp, root, permission, kind), bool(got)))
+                        ctx.case(("access", perms, pp, root, permission, kind), nontrivial=bool(perms or pperms))
+
+    def enc_in(c):
+        perms, pp, root, permission, kind = c
+        es = lambda x: "[" + ";".join(str(ord(ch)) for ch in x) + "]%N"   # noqa: E731
+        return "(%s, %s, %s, %s, %s)" % (es(perms), es(pp), "true" if root else "false", es(permission), kind)
+    header = """From Coq Require Import List NArith Bool.
+Import ListNotations.
+Require Import RV.Lib.PyStr RV.Lib.Item RV.Model.Access.
+Definition run_ac (c : pystr * pystr * bool * pystr * item_kind) : bool :=
+  let '(a, b, r, p, k) := c in match access_check a b r p k with Some x => x | None => false end.
+"""
+    bad = ctx.diff_cases("c03_access", header, "run_ac", cases, enc_in, lambda b: "true" if b else "false", "Bool.eqb", shard=2500)
+    if bad is not None:
+        ctx.obligation("correspondence:access_check", not bad, "" if not bad else "first: %r" % (cases[bad[0]],))
+    ctx.count("cases:access_check", len(cases))
+
+
 def run(ctx):
     ctx.rule = ("(i) handler histories as in C01 but with ~40% random permission tables (letters R r W w i d D o O in any mix) for three "
                 "users incl. anonymous; (ii) pairs of stores differing only inside subtrees dark for the probing user, same 6-20 requests; "
@@ -201,6 +256,7 @@ def run(ctx):
     def monitor(world, hist, outs, runner):
         payload_monitor(ctx, state, world, hist, outs, runner)
         write_monitor(ctx, state, world, hist, outs, runner)
+    access_check_correspondence(ctx)
     x_hcheck.run_histories(ctx, ctx.n(200, 6000), monitor=monitor, tag="c03")
     two_store_differential(ctx, ctx.n(60, 2500))
 
